@@ -105,6 +105,7 @@ enum { PLACE_COMPACT = 0, PLACE_FAR = 1 };
 typedef struct { int fill, realloc_policy, reuse, place; uint64_t seed; } sa_cfg_t;
 void   sa_init(void);
 void   sa_reset(const sa_cfg_t *cfg);
+void   sa_set_fill(int fill);                                       /* change the fresh-memory fill mid-run (garbage differential) */
 void  *sim_malloc(size_t n);
 void  *sim_calloc(size_t n, size_t m);
 void  *sim_realloc(void *p, size_t n);
